@@ -46,7 +46,7 @@ func genC01(r *Rand, n int, tier string, emit func(string)) {
 	})
 }
 
-func spanOrBad(data []byte, n *cnode, stored []byte) string {
+func spanOrBad(data []byte, n *bnode, stored []byte) string {
 	if stored == nil {
 		return "!nil"
 	}
@@ -57,7 +57,7 @@ func spanOrBad(data []byte, n *cnode, stored []byte) string {
 }
 
 // txNodes returns the body / witness / aux / outputs nodes of transaction i.
-func c01TxNodes(era string, root *cnode, i int) (body, wit, aux *cnode, outs []*cnode) {
+func c01TxNodes(era string, root *bnode, i int) (body, wit, aux *bnode, outs []*bnode) {
 	switch era {
 	case "byron":
 		pair := root.kid(1).kid(0).kid(i)
